@@ -115,13 +115,20 @@ def check(run):
         "rounding: 'up to the rounding error of the floating type' = don't-care band of 8*eps*(|x*ratio| + |origin offset|) "
         "+ one denormal around the deciding boundary, eps of the type std::round works in (double for integral reps); inputs "
         "whose exact value overflows that type, or the explicit output rep, are outside the statement and only counted",
-        "|round - exact| <= 1/2 does not fix the direction of ties, so std::nearbyint-style ties are not judged",
+        "QuantityPoint rounding: values within a factor 2^16 of the working type's largest finite value are outside the "
+        "statement (the conversion has to pass through a finer common unit and overflows there: overflow, not rounding)",
+        "|round - exact| <= 1/2 does not fix the direction of ties, so std::nearbyint-style ties are not judged (only counted)",
         "inversion, floating rep: K/x within 4 eps relative; integral rep: exact trunc(K/x); x = 0 never executed",
         "trig: |lib - f(e_hat)| <= 4 ulp + first/second-order effect of an argument error of eps*|e_hat| (f evaluated in long "
         "double); arguments already in radians: bit equality with the std function",
         "two-argument functions: judged only where both operands, expressed exactly in the model's common unit, are "
         "representable in the common rep (and exactly convertible to the std function's argument type); other value pairs are "
-        "counted and, for integral reps, never executed",
+        "counted and, for integral reps, never executed; results of converted operands are compared as values (+0 == -0, "
+        "NaN == NaN), results of unconverted operands bit for bit",
+        "min/max/clamp of QuantityPoints: the statement does not fix which common point unit is chosen (see C10), so its "
+        "magnitude is read out from the implementation and accepted iff every input's scale and origin offset are integers in "
+        "it; values are then judged in that unit with the lowest input origin as zero",
+        "value-sweep TUs are built with -O1 -fwrapv so that a signed wrap inside the library shows up as a wrong value",
     ]
 
 
